@@ -47,7 +47,7 @@ func (p *propC12) Prepare(seed uint64, tier string) int {
 		}
 	}
 	p.count = 150000
-	if tier == "thorough" {
+	if isThorough(tier) {
 		p.count = 4000000
 	}
 	return p.count
